@@ -518,11 +518,18 @@ func Acquire(site int, try func() bool) {
 }
 
 func Release(site int, unlock func()) {
-	unlock()
 	s := S
 	if s == nil {
+		unlock()
 		return
 	}
+	if s.stopping {
+		// The run is being torn down by unwinding every task with a stop panic. Deferred unlocks of
+		// code that had temporarily released its lock (unlock; sleep; lock) would hit an unlocked
+		// mutex - a fatal error, not a panic. Nobody will take the lock again, so it is left alone.
+		return
+	}
+	unlock()
 	s.mu.Lock()
 	for _, t := range s.tasks {
 		if t.state == stLockWait {
